@@ -255,6 +255,32 @@ fn gen_table(r: &mut Rng, fam_idx: u64) -> Table {
                 (0..n).map(|i| if r.chance(1, 6) { 0 } else { (base + i + 1) as u32 }).collect();
             Table { fam: "dense-ib", tl, starts, ends }
         }
+        // 9: the Compact/Dense boundary: monotone tables with ONE small inversion
+        //    (a start or a recorded end that is 1..3 below its predecessor)
+        9 => {
+            let tl = *r.pick(&EDGE_TL);
+            let n = r.range(3, 30) as usize;
+            let mut starts = mono_starts(r, n, tl.saturating_sub(1), 1, 4);
+            let mut ends = parser_like_ends(r, &starts, tl, 7);
+            let d = r.range(1, 3) as u32;
+            if r.coin() {
+                // one recorded end dips below the previous recorded end
+                let nz: Vec<usize> = (0..n).filter(|&i| ends[i] > 0).collect();
+                if nz.len() >= 2 {
+                    let m = r.range(1, nz.len() as u64 - 1) as usize;
+                    let prev = ends[nz[m - 1]];
+                    if prev > d {
+                        ends[nz[m]] = prev - d;
+                    }
+                }
+            } else {
+                let j = r.range(1, n as u64 - 1) as usize;
+                if starts[j - 1] >= d {
+                    starts[j] = starts[j - 1] - d;
+                }
+            }
+            Table { fam: "near-mono", tl, starts, ends }
+        }
         // 8: unequal vector lengths (from_parts accepts them)
         _ => {
             let tl = *r.pick(&EDGE_TL);
@@ -538,7 +564,7 @@ fn main() {
         }
     } else {
         for t in 0..tables {
-            list.push(gen_table(&mut r, (t % 9) as u64));
+            list.push(gen_table(&mut r, (t % 10) as u64));
         }
         for b in 0..nbig {
             let n = if b == 0 { 20_000 } else { r.range(3_000, 30_000) as usize };
